@@ -21,7 +21,7 @@ func main() {
 	meshgen.FixedCases(run)
 	kinds := append(append([]string{}, meshgen.ExactOps...), meshgen.FrameOps...)
 	// the index-remapping operations get twice the weight of the others
-	kinds = append(kinds, "append", "weld", "split", "filter", "remove_unref", "remove_null", "crop", "repeat", "unweld")
+	kinds = append(kinds, "append", "weld", "split", "filter", "remove_unref", "remove_null", "crop", "repeat", "unweld", "slice")
 	for len(run.Cases) < run.N {
 		if r.Chance(1, 8) {
 			meshgen.Law(run, r)
